@@ -69,6 +69,14 @@ def cases(tier):
                     # two depth coordinates that share the depth dimension (layer depth given both ways)
                     out.append({'family': family, 'ncol': ncol, 'nlayer': nlayer, 'positive': positive, 'deep_first': deep_first,
                                 'two': False, 'shared': True, 'floors': [list(f) for f in floors[::5]]})
+    # every subset of layers holding data in every column (gaps above data, e.g. levels above a low tide): 8^3 patterns
+    patterns = [list(f) for f in itertools.product(range(8), repeat=3)]
+    configs = [('cf1d', 'up', True), ('ugrid', 'down', False)] if tier == 'quick' else \
+        [(family, positive, deep) for family in FAMILIES for positive in ('up', 'down') for deep in (False, True)]
+    for family, positive, deep_first in configs:
+        for start in range(0, len(patterns), 32):
+            out.append({'family': family, 'ncol': 3, 'nlayer': 3, 'positive': positive, 'deep_first': deep_first, 'two': False,
+                        'masks': True, 'floors': patterns[start:start + 32]})
     # the two-coordinate datasets again, in fresh interpreters with fixed hash seeds
     floors = [list(f) for f in itertools.product(range(4), repeat=3)]
     picked = floors[::7] if tier == 'quick' else floors
@@ -112,6 +120,12 @@ def build_dataset(case, floor):
             wet = list(floor)
         else:
             wet = [(c * 2 + 1) % (nlayer + 1) for c in range(ncell)]
+        if case.get('masks') and kind == truth.default_kind:
+            # bit p of the column's number set <=> physical layer p holds data (gaps above data allowed)
+            valid = [[bool((m >> p) & 1) for p in range(nlayer)] for m in floor]
+        else:
+            valid = [[p < w for p in range(nlayer)] for w in wet]
+        deepest = [max([p for p in range(nlayer) if col[p]], default=None) for col in valid]
         base_dims = (time_dim,) + gdims
         positions = range(len(base_dims) + 1) if kind == truth.default_kind else (1,)
         for pos in positions:
@@ -123,11 +137,11 @@ def build_dataset(case, floor):
             for t in range(nt):
                 for k, p in enumerate(physical):
                     for c in range(ncell):
-                        if p < wet[c]:
+                        if valid[c][p]:
                             values[t, k, c] = 10000 * (pos + 1) + 1000 * t + 100 * p + c
                 for c in range(ncell):
-                    if wet[c] > 0:
-                        floor_values[t, c] = 10000 * (pos + 1) + 1000 * t + 100 * (wet[c] - 1) + c
+                    if deepest[c] is not None:
+                        floor_values[t, c] = 10000 * (pos + 1) + 1000 * t + 100 * deepest[c] + c
             canonical = xr.DataArray(values.reshape((nt, nlayer) + gshape), dims=(time_dim, depth_dim) + gdims)
             new_vars[name] = canonical.transpose(*dims)
             expectations[name] = (tuple(d for d in dims if d != depth_dim),
@@ -210,24 +224,28 @@ def run_case(case):
     fp = f"C12/{case['family']}"
     for floor in case['floors']:
         if len(set(floor)) > 1:
-            rec.nontrivial(tuple(floor))
+            rec.nontrivial((case.get('masks', False),) + tuple(floor))
         ds, truth, expectations, depth_name, second, shared = build_dataset(case, floor)
         snapshot = ds.copy(deep=True)
         label = f"floor={floor} positive={case['positive']} deep_first={case['deep_first']} two={case['two']}"
         convention = ds.ems
         depth_coords = [depth_name] + ([second['name']] if second else []) + ([shared] if shared else [])
-        for api in ('function', 'accessor'):
+        for api in ('function', 'function-iterators', 'accessor'):
             try:
                 with warnings.catch_warnings():
                     warnings.simplefilter('ignore')
                     if api == 'function':
                         result = lib(depth.ocean_floor, ds, depth_coords, non_spatial_variables=[truth.time_name])
+                    elif api == 'function-iterators':
+                        # the documented argument type is an iterable: one-shot iterators included
+                        result = lib(depth.ocean_floor, ds, (name for name in depth_coords),
+                                     non_spatial_variables=iter([ds[truth.time_name]]))
                     else:
                         result = lib(convention.ocean_floor)
             except LibraryRaised as err:
                 rec.check(False, f"{fp}/raised", f"{label} ({api})", 'dataset', str(err))
                 continue
-            if api == 'function':
+            if api != 'accessor':
                 reduced = list(depth_coords)
             else:
                 # the accessor reduces the depth coordinates the convention itself recognises
